@@ -72,8 +72,11 @@ def generate(seed, tier):
     amp_band = None
     if rw.random() < 0.06:      # "any finite input": amplitudes whose squares / fourth powers overflow float64
         amp_band = "overflow"
-        data["recipe"] = rw.choice(["noise", "noise", "sine+noise", "multisine"])
-        data["scale"] = rw.choice([1e-80, 1e80, 1e120, 1e160, 1e200, 1e250])
+        # broadband records only, and amplitudes whose statistics are either far below the float64 maximum (1e80, 1e120:
+        # only products of statistics overflow) or far above it in every bin (1e200, 1e250: cleaned to 0 by the library);
+        # statistics *near* the maximum are the recorded finding non_finite_value:threshold and are not generated
+        data["recipe"] = rw.choice(["noise", "noise", "sine+noise"])
+        data["scale"] = rw.choice([1e-80, 1e80, 1e120, 1e200, 1e250])
         data["offset"] = 0.0
     cfg = SC.gen_config(rw, N, backends=(W.backend_of({"world": world}),), allow_custom=True)
     if sim:
